@@ -71,6 +71,7 @@ func main() {
 	run := evid.NewRun(prop, tier, seed, c.level)
 	mon.CurrentRun = run
 	mon.InstallObserveHook(run)
+	mon.MemoryWatchdog(run, 20, func() { os.Exit(run.Finish()) })
 	c.fn(run)
 	os.Exit(run.Finish())
 }
